@@ -21,6 +21,9 @@ def cases(draw, procs=False):
             L['hooks'] = sorted(set(L['hooks']) | {'setUp', 'tearDown'}, key=gen.HOOKS.index)
     opts = {'verbose': draw(st.integers(0, 3)), 'repeat': draw(st.sampled_from([1, 1, 1, 2, 3])),
             'buffer': draw(st.sampled_from([False, False, True]))}
+    if not procs and faults is None and opts['repeat'] == 1 and not spec.get('shaped') and draw(st.integers(0, 3)) == 0:
+        # --stop-on-error: what is reported is what happened up to (and including all of) the first bad test
+        opts['stop'] = True
     if procs:
         opts['mode'] = draw(st.sampled_from(['j2', 'j3', 'resume']))
         if draw(st.integers(0, 3)) == 0:
@@ -30,7 +33,7 @@ def cases(draw, procs=False):
     return {'spec': spec, 'opts': opts}
 
 
-def expected_counts(spec, w, run_trace, repeat):
+def expected_counts(spec, w, run_trace, repeat, only_started=False):
     """from the spec (which tests are selected and what events each kind produces) and the trace (which tests
     really started; names of failing subtests as logged by the world)"""
     sel = model.select(spec)
@@ -41,10 +44,16 @@ def expected_counts(spec, w, run_trace, repeat):
     for e in run_trace:
         if e['ev'] == 'T' and e['ph'] == 'subfail':
             subfails.setdefault(e['id'], []).append((e['kind'], e['s']))
+    started = {e['id'] for e in run_trace if e['ev'] == 'T' and e['ph'] == 'run'} if only_started else None
     for ln, recs in sel.items():
         li = w.full.get(ln)
         if li != model.UNIT and li not in ok_layers:
             continue
+        if started is not None:
+            # (-x: the run ends after the first bad test; a test that was started is reported completely)
+            recs = [rec for rec in recs if rec['id'] in started]
+            if not recs:
+                continue
         n = f = er = s = 0
         for rec in recs:
             t = rec['t']
@@ -105,7 +114,8 @@ def oracle(spec, opts, run, tag=''):
     if viol:
         return viol, None
     repeat = opts.get('repeat', 1)
-    per_layer, fail_names, err_names, nlayer_err, setup_failures = expected_counts(spec, w, run.trace, repeat)
+    per_layer, fail_names, err_names, nlayer_err, setup_failures = expected_counts(spec, w, run.trace, repeat,
+                                                                                   only_started=bool(opts.get('stop')))
     p = parse.parse(run.out)
     nimp = sum(1 for m in spec['modules'] if m.get('fail'))
     got = {}
@@ -161,7 +171,7 @@ def _fmt(c, spec):
 
 
 def labels_of(spec, opts, w):
-    labels = ['v%d' % opts.get('verbose', 0)]
+    labels = ['v%d' % opts.get('verbose', 0)] + (['-x'] if opts.get('stop') else [])
     kinds = common.count_kinds(spec)
     bad = any(model.is_bad(t) for _, t in gen.iter_tests(spec))
     skipped = any(model.events_of(t)[2] for _, t in gen.iter_tests(spec))
